@@ -19,7 +19,7 @@ P = {
    note="Outside: chains longer than the bound (number of blocks), real callbacks' outputs (other properties), core::fmt itself (modelled), the two-run slice comparison."),
  "C03": dict(claimed=True, tech="bounded model checking (Kani/CBMC): differential harness against Bitcoin Core's VarInt reference + dispatch/seek harnesses",
    text="read_varint equals the Core reference on every <=10-byte input; index records decode field-by-field; get_block asks the file/offset named by the record; read_block reads the size prefix and header at that offset regardless of the previous reader position.",
-   note="Outside: directory enumeration and symlink resolution (real FS), hundreds of files."),
+   note="Outside: ChainStorage::new / BlkFile::from_path (directory enumeration, symlink resolution, which blk files are kept: real FS, not encoded - seed C03-r2 is missed for this reason), hundreds of files."),
  "C04": dict(claimed=True, tech="bounded model checking (Kani/CBMC) of get_block_index over symbolic fork histories",
    text="get_block_index over an active chain of 2 blocks plus one competitor record (all hashes, the competitor status within its kind, file/offset symbolic; key order and competitor height concrete per instance): header-only / failed-without-data competitors never displace an active record, data-bearing competitors sorting before the active block do not either. Two genuine defects are recorded as known findings (data-bearing competitor sorting after the active block; data-bearing competitor above the tip).",
    note="Outside: more than one competitor; indexes without a unique best chain; prev-hash linkage of delivered blocks (checked by --verify, C09). known_findings.json lists the two open findings; any other failing assertion still fails the check."),
